@@ -273,13 +273,13 @@ type region struct {
 
 var regions = []region{
 	{net.IP{10, 0, 0, 0}, 26, 32},
-	{net.IP{10, 0, 0, 0}, 13, 19},   // crosses an octet boundary
-	{net.IP{0, 0, 0, 0}, 0, 5},      // includes 0.0.0.0/0 and the top bit
+	{net.IP{10, 0, 0, 0}, 13, 19}, // crosses an octet boundary
+	{net.IP{0, 0, 0, 0}, 0, 5},    // includes 0.0.0.0/0 and the top bit
 	{net.IP{192, 168, 255, 0}, 22, 27},
 	{net.ParseIP("2001:db8::"), 122, 128},
 	{net.ParseIP("2001:db8:0:0::"), 60, 68}, // crosses the 64-bit halves of V6CommonPrefix
 	{net.ParseIP("::"), 0, 5},
-	{net.ParseIP("2001:db8::"), 29, 35},     // crosses a 32-bit word
+	{net.ParseIP("2001:db8::"), 29, 35}, // crosses a 32-bit word
 	{net.ParseIP("fd00:0:0:1::"), 62, 66},
 }
 
